@@ -82,6 +82,7 @@ PHASES = {
         {"pkg": "e2", "test": "TestC03Retransmission", "phase": "C03/retransmission"},
         {"pkg": "e2", "test": "TestC03TimerPhase", "phase": "C03/timer-phase"},
         {"pkg": "e2", "test": "TestC03SessionDigits", "phase": "C03/session-id-digits"},
+        {"pkg": "e2", "test": "TestC03Reconnect", "phase": "C03/reconnect-under-same-client-id"},
         # retransmission to the other sessions must survive one subscriber that stops reading (same paths as C18's)
         {"pkg": "e2", "test": "TestC18SilentReader", "phase": "C18/silent-reader"},
     ],
